@@ -24,16 +24,41 @@ def trimPrefix (p s : Str) : Str := if p.isPrefixOf s then s.drop p.length else 
 /-- `strings.HasSuffix` -/
 def hasSuffix (suf s : Str) : Bool := suf.reverse.isPrefixOf s.reverse
 
+/-- body of the loop of `tax.NormalizeIdentity`: `TrimPrefix` of the country, then of
+    every alternative code in order, once each -/
+def trimPass (country : Str) (alts : List Str) (code : Str) : Str :=
+  alts.foldl (fun c a => trimPrefix a c) (trimPrefix country code)
+
+/-- `for { prev := code; …; if code == prev { break } }` with fuel: every pass that does
+    not leave the loop shortens the code, so `code.length + 1` passes always reach the
+    `break` (`trimLoop_stable` in Proofs/Normalize.lean) -/
+def trimLoop (country : Str) (alts : List Str) : Nat → Str → Str
+  | 0, code => code
+  | fuel + 1, code =>
+    let next := trimPass country alts code
+    if next == code then code else trimLoop country alts fuel next
+
 /-- `tax.NormalizeIdentity(tID, altCodes...)`: the new code -/
 def normalizeIdentity (country : Str) (alts : List Str) (code : Str) : Str :=
-  alts.foldl (fun c a => trimPrefix a c) (trimPrefix country (stripBad (upper code)))
+  let c := stripBad (upper code)
+  trimLoop country alts (c.length + 1) c
 
-/-- CH: `taxCodeSuffixes.ReplaceAllString(code, "")` with `(MWST|TVA|IVA)$` -/
-def chStripSuffix (s : Str) : Str :=
-  if hasSuffix ['M','W','S','T'] s then s.take (s.length - 4)
-  else if hasSuffix ['T','V','A'] s then s.take (s.length - 3)
-  else if hasSuffix ['I','V','A'] s then s.take (s.length - 3)
-  else s
+/-- `^(MWST|TVA|IVA)*$` (the three alternatives begin with different letters: the parse is unique) -/
+def chSuffixStar : Str → Bool
+  | [] => true
+  | 'M' :: 'W' :: 'S' :: 'T' :: r => chSuffixStar r
+  | 'T' :: 'V' :: 'A' :: r => chSuffixStar r
+  | 'I' :: 'V' :: 'A' :: r => chSuffixStar r
+  | _ => false
+/-- `^(MWST|TVA|IVA)+$` -/
+def chSuffixPlus (s : Str) : Bool := !s.isEmpty && chSuffixStar s
+
+/-- CH: `taxCodeSuffixes.ReplaceAllString(code, "")` with `(MWST|TVA|IVA)+$`: the match
+    must reach the end of the text, so there is at most one, and the leftmost-first rule
+    makes it start at the first position from which the rest is a run of suffixes -/
+def chStripSuffix : Str → Str
+  | [] => []
+  | c :: cs => if chSuffixPlus (c :: cs) then [] else c :: chStripSuffix cs
 
 /-- FR: SIREN → VAT -/
 def frExtend (str : Str) : Str :=
